@@ -31,6 +31,17 @@ WALL_BUDGET = {"quick": 300, "thorough": 2400}
 ASSUMPTIONS = ["expected singular values are the prescribed ones (inputs are built as U diag(s) V^H from exactly/numerically unitary factors)"]
 
 
+
+def _dedupe(cases_):
+    """the same cell can be listed by two enumerations (e.g. a tall shape that the thorough bound also reaches): keep the first."""
+    seen, out_ = set(), []
+    for c in cases_:
+        if c["key"] not in seen:
+            seen.add(c["key"])
+            out_.append(c)
+    return out_
+
+
 def cases(tier, seed):
     S = 4 if tier == "quick" else 6
     rows = 1 if tier == "quick" else 3
@@ -104,7 +115,7 @@ def cases(tier, seed):
         out.append({"key": f"full/large/{m}x{n}", "entry": "classical_qsvd_full", "m": m, "n": n, "vals": vals, "kU": "hh", "kV": "hh", "row": 0, "R": None})
         for R in sorted({1, p // 2 + 1, p}):
             out.append({"key": f"trunc/large/{m}x{n}/R={R}", "entry": "classical_qsvd", "m": m, "n": n, "vals": vals, "kU": "hh", "kV": "hh", "row": 0, "R": R})
-    return out
+    return _dedupe(out)
 
 
 def run_case(case, seed):
@@ -133,7 +144,7 @@ def run_case(case, seed):
         vals = [float(v) if v > 1e-12 * max(sv_[0], 1.0) else 0.0 for v in sv_]
         # treat numerically coincident values as one cluster
         for t in range(1, len(vals)):
-            if vals[t] > 0 and abs(vals[t] - vals[t - 1]) <= 1e-9 * vals[0]:
+            if vals[t] > 0 and abs(vals[t] - vals[t - 1]) <= 1e-13 * vals[0]:  # rounding-level coincidence only; close-but-distinct values keep their own expected value (gap-aware budgets below)
                 vals[t] = vals[t - 1]
     else:
         A, Uq, Vq = SG.build(m, n, vals, case["kU"], case["kV"], fill, variant=len(vals) + int(sum(vals) * 4))
@@ -154,7 +165,7 @@ def run_case(case, seed):
     bud = O.budget(nA, dims=4 * max(m, n))
     nzv = sorted({v for v in vals if v > 0}, reverse=True)
     gap_rel = min(((a - b) / nzv[0] for a, b in zip(nzv, nzv[1:])), default=1.0)
-    if gap_rel < 2.0 ** -12:
+    if gap_rel < 2.0 ** -6:
         # close (not equal) singular values: the contraction of the real singular vectors loses accuracy like u * sigma_1 / gap - the
         # continuous extension of finding qsvd-contraction-degenerate; these cells decide gross errors (a merged / split / shifted group)
         bud = bud * (2.0 ** -6 / gap_rel)
@@ -181,7 +192,7 @@ def run_case(case, seed):
             # singular vectors are determined only up to u * sigma_max / gap: scale the budget when the spectrum is graded
             dv = sorted(set(vals + ([0.0] if m != n else [])), reverse=True)
             gap_min = min((a - b for a, b in zip(dv, dv[1:])), default=max(dv[0], 1.0)) if len(dv) > 1 else max(dv[0], 1.0)
-            tol_u = O.budget(1.0, dims=16 * max(m, n)) * max(1.0, 2.0 ** -10 * (dv[0] / gap_min if gap_min > 0 else 1.0), (2.0 ** -6 / gap_rel) if gap_rel < 2.0 ** -12 else 1.0)
+            tol_u = O.budget(1.0, dims=16 * max(m, n)) * max(1.0, 2.0 ** -10 * (dv[0] / gap_min if gap_min > 0 else 1.0), (2.0 ** -6 / gap_rel) if gap_rel < 2.0 ** -6 else 1.0)
             if dU > tol_u:
                 fails.append(fail("U_orthonormal", f"||U^H U - I||_F = {dU:.3e}", **tags))
             if dV > tol_u:
